@@ -16,6 +16,7 @@
 import Mashu.Frag
 import Mashu.Lemmas.Inv
 import Mashu.Lemmas.Rt
+import Mashu.Props.C02
 namespace Mashu
 
 /-- `r2` returns whatever `r1` returns -/
@@ -247,6 +248,199 @@ theorem nested_field (cls : String) (cfg : Cfg) (f : FieldDef) (S : Ty) (cx : Cx
   | ok a =>
     simp only [R.bind_ok]
     cases cfg.sortKeys <;> simp [sortEntries, insertEntry]
+
+/-! ### conforming values: the two entry points are EQUAL -/
+
+theorem mapM_congr' {α β} {f g : α → R β} : ∀ (xs : List α), (∀ x ∈ xs, f x = g x) → xs.mapM f = xs.mapM g
+  | [], _ => rfl
+  | x :: xs, h => by
+      rw [List.mapM_cons, List.mapM_cons, h x (by simp), mapM_congr' xs (fun y hy => h y (by simp [hy]))]
+
+section
+variable (hO : PrintLaws O)
+include hO
+
+mutual
+/-- for a value that conforms to a union-free annotation the runtime-class dispatch of the mixin
+    path never departs from the annotation and no "no member matches" branch is reached: the two
+    entry points compute the very same result -/
+theorem pack_eq_conf : ∀ (S : Ty) (cx : Cx) (fx : Fx) (v : V), Frag S → Conf S v →
+    pack O (nl cx) fx S v = pack O (cd cx) fx S v
+  | .any, cx, fx, v, _, _ => by simp only [pack]
+  | .none, cx, fx, v, _, _ => by simp only [pack]
+  | .bool, cx, fx, v, _, _ => by simp only [pack]
+  | .int, cx, fx, v, _, _ => by simp only [pack]
+  | .float, cx, fx, v, _, _ => by simp only [pack]
+  | .str, cx, fx, v, _, _ => by simp only [pack]
+  | .leaf k, cx, fx, v, _, _ => by simp only [pack]
+  | .enum cls ms, cx, fx, v, _, _ => by simp only [pack]
+  | .lit vals, cx, fx, v, hf, hc => by
+      simp only [Conf] at hc
+      obtain ⟨cw, hmem, rfl⟩ := hc
+      have hsc : LitScalar cw.1 := hf cw hmem
+      simp only [pack]
+      cases hfind : vals.find? (fun c => O.eq cw.1 c.1) with
+      | some cw' => rfl
+      | none =>
+        rw [List.find?_eq_none] at hfind
+        have := hfind cw hmem
+        simp [hO.eq_refl cw.1 hsc] at this
+  | .opt t, cx, fx, v, hf, hc => by
+      simp only [pack]
+      split
+      · rfl
+      · rename_i hn
+        simp only [Conf] at hc
+        rcases hc with rfl | hc'
+        · exact (hn rfl).elim
+        · exact pack_eq_conf t cx fx v (by simpa only [Frag] using hf) hc'
+  | .union ts, cx, fx, v, hf, _ => by simp [Frag] at hf
+  | .coll o t, cx, fx, v, hf, hc => by
+      simp only [Frag] at hf
+      simp only [Conf] at hc
+      obtain ⟨vs, rfl, hall⟩ := hc
+      have hit : pyIterO O (.coll o vs) = .ok vs := by
+        rcases hf.1 with rfl | rfl | rfl | rfl <;> simp [pyIterO, pyIter]
+      simp only [pack, packIdent_nailed, hit, R.bind_ok]
+      rw [mapM_congr' vs (fun x hx => pack_eq_conf t cx fx x hf.2 (hall x hx))]
+  | .map o k t, cx, fx, v, hf, hc => by
+      simp only [Frag] at hf
+      simp only [Conf] at hc
+      obtain ⟨kvs, rfl, hall⟩ := hc
+      simp only [pack, packIdent_nailed, pyItems, R.bind_ok]
+      have : ∀ kv ∈ kvs, kvM (pack O (nl cx) fx k) (if o == .counter then pure else pack O (nl cx) fx t) kv
+          = kvM (pack O (cd cx) fx k) (if o == .counter then pure else pack O (cd cx) fx t) kv := by
+        intro kv hkv
+        unfold Mashu.kvM
+        rw [pack_eq_conf k cx fx kv.1 hf.1 (hall kv hkv).1]
+        by_cases hc' : (o == .counter) = true
+        · simp only [hc', if_true]
+        · simp only [hc', Bool.false_eq_true, if_false]
+          rw [pack_eq_conf t cx fx kv.2 hf.2.1 (hall kv hkv).2]
+      rw [mapM_congr' kvs this]
+  | .chain k t, cx, fx, v, hf, hc => by
+      simp only [Frag] at hf
+      simp only [Conf] at hc
+      obtain ⟨ms, rfl, hall⟩ := hc
+      simp only [pack]
+      have : ∀ m ∈ ms, itemsM (kvM (pack O (nl cx) fx k) (pack O (nl cx) fx t)) m = itemsM (kvM (pack O (cd cx) fx k) (pack O (cd cx) fx t)) m := by
+        intro m hm
+        obtain ⟨kvs, rfl, hkv⟩ := hall m hm
+        unfold Mashu.itemsM
+        simp only [pyItems, R.bind_ok]
+        have : ∀ kv ∈ kvs, kvM (pack O (nl cx) fx k) (pack O (nl cx) fx t) kv = kvM (pack O (cd cx) fx k) (pack O (cd cx) fx t) kv := by
+          intro kv hkv'
+          unfold Mashu.kvM
+          rw [pack_eq_conf k cx fx kv.1 hf.1 (hkv kv hkv').1, pack_eq_conf t cx fx kv.2 hf.2 (hkv kv hkv').2]
+        rw [mapM_congr' kvs this]
+      rw [mapM_congr' ms this]
+  | .tvar t, cx, fx, v, hf, hc => by
+      simp only [Conf] at hc
+      obtain ⟨vs, rfl, hall⟩ := hc
+      simp only [pack, pyIterO, pyIter, R.bind_ok]
+      rw [mapM_congr' vs (fun x hx => pack_eq_conf t cx fx x (by simpa only [Frag] using hf) (hall x hx))]
+  | .tfix ts, cx, fx, v, hf, hc => by
+      simp only [Conf] at hc
+      obtain ⟨vs, rfl, hall⟩ := hc
+      simp only [pack]
+      have := packIdx_eq_conf ts cx fx [] vs (by simpa only [Frag] using hf) hall
+      simp only [List.nil_append, List.length_nil, Int.natCast_zero] at this
+      rw [this]
+  | .tunp _ _ _, cx, fx, v, hf, _ => by simp [Frag] at hf
+  | .nt cls fs defs asD, cx, fx, v, hf, hc => by
+      simp only [Conf] at hc
+      obtain ⟨vs, rfl, hall⟩ := hc
+      simp only [pack]
+      have := packNT_eq_conf cls fs cx fx [] vs (by simpa only [Frag] using hf) hall
+      simp only [List.nil_append, List.length_nil, Int.natCast_zero] at this
+      rw [this]
+  | .td _ _ _, cx, fx, v, hf, _ => by simp [Frag] at hf
+  | .dc cls cfg fs, cx, fx, v, hf, hc => by
+      simp only [Frag] at hf
+      simp only [Conf] at hc
+      obtain ⟨ivs, rfl, hall⟩ := hc
+      have hl := confF_lookup fs ivs hall hf.2
+      simp only [pack, bne_self_eq_false, Bool.and_false, Bool.false_eq_true, if_false]
+      have := packFields_eq_conf cls cfg ivs fs { cx with ntAsDict := cfg.ntAsDict } hf.1 hl
+      simp only [nl, cd] at this
+      rw [this]
+
+theorem packIdx_eq_conf : ∀ (ts : List Ty) (cx : Cx) (fx : Fx) (pre vs : List V), FragL ts → ConfL ts vs →
+    packIdx O (nl cx) fx ts (.coll .tuple (pre ++ vs)) (pre.length : Int) = packIdx O (cd cx) fx ts (.coll .tuple (pre ++ vs)) (pre.length : Int)
+  | [], cx, fx, pre, vs, _, _ => by simp only [packIdx]
+  | t :: ts, cx, fx, pre, vs, hf, hc => by
+      cases vs with
+      | nil => simp [ConfL] at hc
+      | cons x xs =>
+        simp only [ConfL] at hc
+        simp only [FragL] at hf
+        have hidx : pyIndex (.coll .tuple (pre ++ x :: xs)) (pre.length : Int) = .ok x :=
+          pyIndex_tuple _ _ _ (by simp)
+        have hcast : ((pre ++ [x]).length : Int) = (pre.length : Int) + 1 := by simp
+        have e : pre ++ x :: xs = (pre ++ [x]) ++ xs := by simp
+        have ih := packIdx_eq_conf ts cx fx (pre ++ [x]) xs hf.2 hc.2
+        rw [← e, hcast] at ih
+        simp only [packIdx]
+        by_cases hcp : t.constPack = true
+        · simp only [hcp, if_true, R.pure_eq, R.bind_ok]
+          rw [pack_const O (nl cx) fx t hcp V.none x, pack_const O (cd cx) fx t hcp V.none x, pack_eq_conf t cx fx x hf.1 hc.1, ih]
+        · simp only [hcp, Bool.false_eq_true, if_false, pyIndexO, hidx, R.bind_ok]
+          rw [pack_eq_conf t cx fx x hf.1 hc.1, ih]
+
+theorem packNT_eq_conf : ∀ (cls : String) (fs : List (String × Ty)) (cx : Cx) (fx : Fx) (pre vs : List V), FragN fs → ConfN fs vs →
+    packNT O (nl cx) fx fs (.ntuple cls (pre ++ vs)) (pre.length : Int) = packNT O (cd cx) fx fs (.ntuple cls (pre ++ vs)) (pre.length : Int)
+  | _, [], cx, fx, pre, vs, _, _ => by simp only [packNT]
+  | cls, (n, t) :: fs, cx, fx, pre, vs, hf, hc => by
+      cases vs with
+      | nil => simp [ConfN] at hc
+      | cons x xs =>
+        simp only [ConfN] at hc
+        simp only [FragN] at hf
+        have hidx : pyIndex (.ntuple cls (pre ++ x :: xs)) (pre.length : Int) = .ok x :=
+          pyIndex_ntuple _ _ _ _ (by simp)
+        have hcast : ((pre ++ [x]).length : Int) = (pre.length : Int) + 1 := by simp
+        have e : pre ++ x :: xs = (pre ++ [x]) ++ xs := by simp
+        have ih := packNT_eq_conf cls fs cx fx (pre ++ [x]) xs hf.2 hc.2
+        rw [← e, hcast] at ih
+        simp only [packNT]
+        by_cases hcp : t.constPack = true
+        · simp only [hcp, if_true, R.pure_eq, R.bind_ok]
+          rw [pack_const O (nl cx) fx t hcp V.none x, pack_const O (cd cx) fx t hcp V.none x, pack_eq_conf t cx fx x hf.1 hc.1, ih]
+        · simp only [hcp, Bool.false_eq_true, if_false, pyIndexO, hidx, R.bind_ok]
+          rw [pack_eq_conf t cx fx x hf.1 hc.1, ih]
+
+theorem packFields_eq_conf : ∀ (cls : String) (cfg : Cfg) (ivs : List (String × V)) (fs : List (FieldDef × Ty)) (cx : Cx), FragF fs →
+    (∀ ft ∈ fs, ∃ v, ivs.lookup ft.1.name = some v ∧ (Conf ft.2 v ∨ (v = .none ∧ ft.1.default = some .none))) →
+    packFields O (nl cx) cls cfg fs ivs = packFields O (cd cx) cls cfg fs ivs
+  | _, _, _, [], cx, _, _ => by simp only [packFields]
+  | cls, cfg, ivs, (f, t) :: fs, cx, hf, hl => by
+      simp only [FragF] at hf
+      have ih := packFields_eq_conf cls cfg ivs fs cx hf.2 (fun ft hft => hl ft (by simp [hft]))
+      obtain ⟨x, hx, hcx⟩ := hl (f, t) (by simp)
+      have hattr : attr ivs f.name = .ok x := by simp [attr, hx]
+      simp only [packFields]
+      by_cases hom : f.serOmit = true
+      · simp only [hom, if_true]; exact ih
+      · simp only [hom, Bool.false_eq_true, if_false, hattr, R.bind_ok]
+        by_cases hnn : (fieldCouldBeNone f t && isNone x) = true
+        · simp only [hnn, if_true, ih]
+        · have hconf : Conf t x := by
+            rcases hcx with h | ⟨rfl, hd⟩
+            · exact h
+            · exfalso; apply hnn
+              have hd' : f.default = some .none := hd
+              simp [fieldCouldBeNone, FieldDef.defaultIsNone, hd', isNone]
+          simp only [hnn, Bool.false_eq_true, if_false]
+          rw [pack_eq_conf t cx { field := f.name, holder := cls } x hf.1 hconf, ih]
+end
+
+/-- **C15, serialization, conforming values.**  `D.to_dict(x)` and `BasicEncoder(D).encode(x)` are
+    EQUAL (same result, or — never, by C02 — the same failure) for every union-free schema. -/
+theorem entrypoints_equal (S : Ty) (cx : Cx) (fx : Fx) (v : V) (hf : Frag S) (hc : Conf S v) :
+    pack O { cx with nailed := true } fx S v = pack O { cx with nailed := false } fx S v :=
+  pack_eq_conf O hO S cx fx v hf hc
+
+end
 
 /-! ### decoding: the whole grammar, unions included -/
 
